@@ -245,6 +245,8 @@ macro_rules! harnesses {
 
 pub mod util;
 pub mod shims;
+pub mod r32;
+pub mod util32;
 
 #[cfg(feature = "c01")] pub mod c01;
 #[cfg(feature = "c02")] pub mod c02;
@@ -260,6 +262,7 @@ pub mod shims;
 #[cfg(feature = "c12")] pub mod c12;
 #[cfg(feature = "c13")] pub mod c13;
 #[cfg(feature = "c14")] pub mod c14;
+#[cfg(feature = "c14")] pub mod c14f;
 #[cfg(feature = "c15")] pub mod c15;
 #[cfg(feature = "c17")] pub mod c17;
 #[cfg(feature = "c17")] pub mod c17_prog;
@@ -282,6 +285,7 @@ pub fn registry() -> Vec<(&'static str, HarnessFn)> {
     #[cfg(feature = "c12")] v.extend(c12::reg());
     #[cfg(feature = "c13")] v.extend(c13::reg());
     #[cfg(feature = "c14")] v.extend(c14::reg());
+    #[cfg(feature = "c14")] v.extend(c14f::reg());
     #[cfg(feature = "c15")] v.extend(c15::reg());
     #[cfg(feature = "c17")] v.extend(c17::reg());
     #[cfg(feature = "c18")] v.extend(c18::reg());
